@@ -135,6 +135,21 @@ theorem c15_completion_config_independent (cfg cfg' : List Trig) (s : List Ctx) 
   rw [hempty]
   simp [pcPhase, hk, ha]
 
+/-- **a failing completion is isolated** — `CallbackContext.process` (translated with its per-callback
+    `try/except Exception`): whichever of the callbacks of a context fail (`fails` arbitrary), `process` is called on
+    every callback of the context, once each, in order, and no exception leaves.  So `Eff.closed c ev` — "the
+    callbacks `c.cbs` were run at `ev`" — means the same under every fault assignment: a failing span close / push
+    does not change which other deferred items of the event are completed. -/
+theorem c15_failed_callback_isolated {β : Type} (fails : β → Bool) (cbs : List β) :
+    contextProcess fails cbs = (cbs, false) ∧
+    contextProcess fails cbs = contextProcess (fun _ => false) cbs := by
+  have h : ∀ (f : β → Bool) (l : List β), contextProcess f l = (l, false) := by
+    intro f l
+    induction l with
+    | nil => rfl
+    | cons c r ih => by_cases hc : f c = true <;> simp [contextProcess, hc, ih]
+  exact ⟨h fails cbs, by rw [h, h]⟩
+
 /-- **the recursion hypothesis is needed** (D27) — `rec(2)` with a method span that fires once (the gate refuses
     the two inner calls): the tree violates `NoClash` only, and the span opened by invocation `[0]` is closed at
     the `return` event of the innermost invocation `[0,0,0]`, in another frame. -/
